@@ -156,6 +156,10 @@ func runC15(p *Prog, r *Result) {
 	checkDecoderRefusals(p, r, "R15e")
 	r.Rule("R15f", "the encoder writes something for every struct it reaches: the reflect.Struct clause of encodeValue returns a value on every path", 1)
 	checkStructAlwaysEncoded(p, r, "R15f")
+	r.Rule("R15h", "Encode returns only errors handed to it by the JSON encoder or the writer", 1)
+	checkEncodeErrors(p, r, "R15h")
+	r.Rule("R15g", "a counter that a typedjson function increments and decrements is decremented on every path to a return", 0)
+	checkBalancedCounters(p, r, "syntax/typedjson", "R15g")
 	r.Rule("R15d", "reflect operations on untrusted-shape values in decodeValue/decodePos are dominated by the kind/assignability test that makes them safe", 23)
 
 	// ---- R15a
@@ -229,8 +233,8 @@ func runC15(p *Prog, r *Result) {
 	}
 
 	// ---- R15b
-	encFD := p.FuncDecl("syntax/typedjson", "encodeValue")
-	decFD := p.FuncDecl("syntax/typedjson", "decodeValue")
+	encFD := p.FuncOrMethodDecl("syntax/typedjson", "encodeValue")
+	decFD := p.FuncOrMethodDecl("syntax/typedjson", "decodeValue")
 	if encFD == nil || decFD == nil {
 		r.Fatalf("anchors typedjson.encodeValue / decodeValue not found")
 		return
@@ -398,7 +402,7 @@ func runC15(p *Prog, r *Result) {
 
 	// ---- R15d
 	checkDecodeGuards(p, r, tj.TypesInfo, decFD)
-	if pd := p.FuncDecl("syntax/typedjson", "decodePos"); pd != nil {
+	if pd := p.FuncOrMethodDecl("syntax/typedjson", "decodePos"); pd != nil {
 		checkDecodePosCaller(p, r, tj.TypesInfo, decFD, pd, si)
 	} else {
 		r.Fatalf("anchor typedjson.decodePos not found")
@@ -759,6 +763,12 @@ func unmarshalTable(info *types.Info, fd *ast.FuncDecl) (map[string]int64, strin
 }
 
 var c15Controls = []Control{
+	{Name: "encode-refuses-a-tree", Rule: "R15h", WantKey: "Encode#returns", File: "syntax/typedjson/json.go",
+		Mutate: ctlReplaceAnywhere("\tencVal.Elem().Field(0).SetString(tname)\n\tenc := json.NewEncoder(w)", "\tencVal.Elem().Field(0).SetString(tname)\n\tif tname == \"Comment\" {\n\t\treturn fmt.Errorf(\"cannot encode a lone comment\")\n\t}\n\tenc := json.NewEncoder(w)")},
+	{Name: "decoder-depth-counter-leaks", Rule: "R15g", WantKey: "++ is undone on every path", File: "syntax/typedjson/json.go",
+		Mutate: ctlChain(
+			ctlReplaceAnywhere("func decodePos(val reflect.Value, enc any) error {\n", "var decodeDepth struct{ n int }\n\nfunc decodePos(val reflect.Value, enc any) error {\n\tdecodeDepth.n++\n"),
+			ctlReplaceAnywhere("\tval.Set(reflect.ValueOf(syntax.NewPos(nums[0], nums[1], nums[2])))\n\treturn nil\n", "\tval.Set(reflect.ValueOf(syntax.NewPos(nums[0], nums[1], nums[2])))\n\tdecodeDepth.n--\n\treturn nil\n"))},
 	{Name: "encoder-drops-empty-structs", Rule: "R15f", WantKey: "case reflect.Struct always returns", File: "syntax/typedjson/json.go",
 		Mutate: ctlReplaceAnywhere("\t\t// Addr helps prevent an allocation as we use any fields.\n", "\t\tif encTyp.NumField() == 3 {\n\t\t\tbreak\n\t\t}\n\t\t// Addr helps prevent an allocation as we use any fields.\n")},
 	{Name: "decoder-rejects-zero-line", Rule: "R15e", WantKey: "decodePos#refusal", File: "syntax/typedjson/json.go",
